@@ -520,6 +520,9 @@ fn run_thread(sh: SArc<Sh>, t: usize) {
     let mut mg: HashMap<usize, MG> = HashMap::new();
     let mut rg: HashMap<usize, RG> = HashMap::new();
     let mut wg: HashMap<usize, WG> = HashMap::new();
+    // pointers obtained with UnsafeCell::get / get_mut and kept in the frame: the access stays open until they are dropped
+    let mut rptr: HashMap<String, loom::cell::ConstPtr<usize>> = HashMap::new();
+    let mut wptr: HashMap<String, loom::cell::MutPtr<usize>> = HashMap::new();
     let armed = std::rc::Rc::new(std::cell::Cell::new(false));
     let mut aguards: Vec<AGuard> = Vec::new();
     let mut pc = 0usize;
@@ -598,6 +601,14 @@ fn run_thread(sh: SArc<Sh>, t: usize) {
             }
             "rd" => sh.cells[oi()].get().with(|_| ()),
             "wr" => sh.cells[oi()].get().with_mut(|_| ()),
+            "rdhold" => {
+                rptr.insert(ins.o.clone(), sh.cells[oi()].get().get());
+            }
+            "rdrel" => drop(rptr.remove(&ins.o).expect("harness: rdrel without rdhold")),
+            "wrhold" => {
+                wptr.insert(ins.o.clone(), sh.cells[oi()].get().get_mut());
+            }
+            "wrrel" => drop(wptr.remove(&ins.o).expect("harness: wrrel without wrhold")),
             // usage errors loom detects with an assertion (C06: must fail the model, not abort the process)
             "wrrd" => sh.cells[oi()].get().with_mut(|_| sh.cells[oi()].get().with(|_| ())),
             "rdwr" => sh.cells[oi()].get().with(|_| sh.cells[oi()].get().with_mut(|_| ())),
@@ -906,6 +917,8 @@ fn run_thread(sh: SArc<Sh>, t: usize) {
         }
         pc = next;
     }
+    drop(rptr);
+    drop(wptr);
     drop(aguards);
     drop(wg);
     drop(rg);
